@@ -344,6 +344,55 @@ func runC18(c *Ctx, r *Report) {
 	r.Floor("R-C18.3", "success returns of PreSign", nps, 2)
 	_ = entryParam
 
+	// ---- R-C18.6 / R-C18.7
+	r.Doc("R-C18.6", "the decode path keeps no state between blocks (pooled or memoised scratch objects would hand one entry's decrypted links to the next)")
+	r.Doc("R-C18.7", "the codec objects shared by concurrent PreSign/DecryptLinks calls are of concurrency-safe (pooled/stateless) types")
+	nd := 0
+	for fn := range decodeScope(c) {
+		nd++
+		detScan(c, r, "R-C18.6", fn)
+	}
+	r.Floor("R-C18.6", "functions in the decode closure", nd, 8)
+	if !hasRule(r, "R-C18.6") {
+		r.Hold("R-C18.6", r.Key("R-C18.6", nil, "stateless-decode", ""), token.NoPos, true, fmt.Sprintf("%d decode functions scanned: no pool, memo table or package-level cache", nd))
+	}
+	ioT := p.Named("io/cbor", "IOCbor").Underlying().(*types.Struct)
+	safe := func(t types.Type) (bool, string) {
+		ts := types.TypeString(t, nil)
+		switch {
+		case strings.Contains(ts, "encoding.PooledMarshaller"), strings.Contains(ts, "encoding.PooledUnmarshaller"):
+			return true, "pooled (one encoder per call)"
+		case strings.Contains(ts, "encoding.Marshaller"), strings.Contains(ts, "encoding.Unmarshaller"), strings.Contains(ts, "bytes.Buffer"):
+			return false, "a single stateful encoder/decoder"
+		}
+		return true, "stateless or immutable after construction"
+	}
+	nfld := 0
+	for i := 0; i < ioT.NumFields(); i++ {
+		f := ioT.Field(i)
+		// only fields used by PreSign / DecryptLinks
+		used := false
+		for _, fn := range []*Fn{ps, dl} {
+			walkNoLit(fn.Body, func(n ast.Node) bool {
+				if e, ok := n.(ast.Expr); ok {
+					if v, _ := p.FieldSel(fn, e); v == f {
+						used = true
+					}
+				}
+				return true
+			})
+		}
+		if !used {
+			continue
+		}
+		nfld++
+		ok, why := safe(f.Type())
+		r.Check(ok, "R-C18.7", r.Key("R-C18.7", nil, "codec-field", f.Name()), f.Pos(),
+			"IOCbor."+f.Name()+" ("+types.TypeString(f.Type(), nil)+") is "+why,
+			"IOCbor."+f.Name()+" is "+why+" shared by every concurrent PreSign/DecryptLinks (fetch workers, Join validators, parallel appends): concurrent use corrupts the sealed link payload")
+	}
+	r.Floor("R-C18.7", "IOCbor fields used by PreSign/DecryptLinks", nfld, 2)
+
 	// ---- R-C18.4
 	openErr := map[types.Object]string{}
 	walkNoLit(dl.Body, func(n ast.Node) bool {
@@ -411,4 +460,13 @@ func constObj(p *Prog, fn *Fn, e ast.Expr) types.Object {
 		}
 	}
 	return nil
+}
+
+func hasRule(r *Report, rule string) bool {
+	for _, o := range r.Obs {
+		if o.Rule == rule {
+			return true
+		}
+	}
+	return false
 }
